@@ -3,9 +3,9 @@ from props import seqcases
 
 LEVEL = "other"
 TECHNIQUE = "CBMC code contracts (DFCC, loop contracts) on hash_data/memswap/Int/Float/String hash+assign; harness proofs through the real dispatch"
-LEVEL_TEXT = "placeholder"
-NOTE = "placeholder"
-EXPLANATION = "eq => equal hash per type as a lemma over the type's cmp and hash contracts"
+LEVEL_TEXT = 'DFCC + loop-contract proofs: hash_data reads exactly data[0,size) and assigns nothing for every size <= 4096, memswap exchanges two buffers (ghost-index invariant, z3 back end); Int/Float/String/Type hash and assign contracts; eq => equal hash through the real dispatch for Int and Float; container hash = XOR of element hashes (bounded lengths).'
+NOTE = 'address-independence of hash_data checked only for lengths 0..2 (multiplier miter undecidable for the installed solvers); libc strlen assumed; copy() not yet under contract'
+EXPLANATION = LEVEL_TEXT
 TRUSTED = []
 
 def jobs(tier):
